@@ -157,6 +157,10 @@ def job(spec):
         _log = []
         _content.clear()
         kw = {"gulp": gulp, "start": start, "nsamps": nsamps, "quiet": True}
+        if start + nsamps == n and ci % 2 == 0:       # a range that runs to the end: leave nsamps (and a zero start) to their defaults
+            kw.pop("nsamps")
+            if start == 0:
+                kw.pop("start")
         outs = []
         rec = {"op": op, "gulp": gulp, "start": start, "nsamps": nsamps, "params": {k: v for k, v in call.items()
                if k not in ("op", "gulp", "start", "nsamps")}, "del": [0] * c, "pre": pre}
